@@ -100,6 +100,8 @@ pub struct Program {
     loop_stack: Vec<LoopInfo>,
     data_iterator: Option<DataIterator>,
     functions: HashMap<Symbol, FunctionDefinition>,
+    #[cfg(abasic_verif)]
+    verif_token_reads: std::cell::Cell<u64>,
 }
 
 impl Program {
@@ -518,6 +520,8 @@ impl Program {
     /// Return the next token in the stream, if it exists,
     /// but don't advance our position in it.
     pub fn peek_next_token(&self) -> Option<Token> {
+        #[cfg(abasic_verif)]
+        self.verif_token_reads.set(self.verif_token_reads.get() + 1);
         self.tokens().get(self.location.token_index).cloned()
     }
 
@@ -633,5 +637,58 @@ impl Program {
                 Some(self.get_prev_location())
             }
         };
+    }
+}
+
+#[cfg(abasic_verif)]
+impl Program {
+    pub(crate) fn verif_fill(&self, probe: &mut crate::verif_probe::VerifProbe) {
+        use crate::verif_probe::{VerifFrame, VerifFunction, VerifLoop};
+        fn loc(l: ProgramLocation) -> (Option<u64>, usize) {
+            match l.line {
+                ProgramLine::Immediate => (None, l.token_index),
+                ProgramLine::Line(n) => (Some(n), l.token_index),
+            }
+        }
+        probe.location = loc(self.location);
+        probe.line_tokens = match self.location.line {
+            ProgramLine::Immediate => Some(&self.immediate_line),
+            ProgramLine::Line(n) => self.numbered_lines.get(n),
+        }
+        .map(|tokens| tokens.iter().map(|t| t.to_string()).collect())
+        .unwrap_or_default();
+        probe.breakpoint = self.breakpoint.map(|b| (b.line, b.token_index));
+        probe.stack = self
+            .stack
+            .iter()
+            .map(|f| VerifFrame {
+                return_location: loc(f.return_location),
+                bindings: f.variables.verif_entries(),
+            })
+            .collect();
+        probe.loops = self
+            .loop_stack
+            .iter()
+            .map(|l| VerifLoop {
+                symbol: l.symbol.to_string(),
+                location: loc(l.location),
+                to_value: l.to_value,
+                step_value: l.step_value,
+            })
+            .collect();
+        let mut functions = self
+            .functions
+            .iter()
+            .map(|(name, f)| VerifFunction {
+                name: name.to_string(),
+                arguments: f.arguments.iter().map(|a| a.to_string()).collect(),
+                location: (f.location.line, f.location.token_index),
+            })
+            .collect::<Vec<_>>();
+        functions.sort_by(|a, b| a.name.cmp(&b.name));
+        probe.functions = functions;
+        probe.data_cursor = self.data_iterator.as_ref().map(|d| d.verif_position());
+        probe.token_reads = self.verif_token_reads.get();
+        probe.line_count = self.numbered_lines.list_tokens().len();
     }
 }
